@@ -120,10 +120,17 @@ def _atom(p):
     return _chr(c)
 
 
+_COLLECT = None      # when a list: (z3 regex of the body, source text of the body) of every sub-expression repeated without bound
+
+
 def _quant(p):
+    i0 = p.i
     a = _atom(p)
+    i1 = p.i
     while p.peek() is not None and p.peek() in '*+?{':
         c = p.next()
+        if c in '*+' and _COLLECT is not None:
+            _COLLECT.append((a, p.s[i0:i1]))
         if c == '*':
             a = z3.Star(a)
         elif c == '+':
@@ -138,6 +145,8 @@ def _quant(p):
             if ',' in spec:
                 lo, hi = spec.split(',')
                 lo = int(lo or 0)
+                if hi == '' and _COLLECT is not None:
+                    _COLLECT.append((a, p.s[i0:i1]))
                 if hi == '':
                     a = z3.Concat(*([a] * lo + [z3.Star(a)])) if lo else z3.Star(a)
                 else:
@@ -194,3 +203,23 @@ def match_lang(pattern):
         # '$' also matches before a trailing newline
         return z3.Concat(r, z3.Option(_chr('\n')))
     return z3.Concat(r, z3.Star(_any()))
+
+
+def unbounded_bodies(pattern):
+    """(z3 regex, source text) of every sub-expression of `pattern` that is repeated without bound (x*, x+, x{n,})."""
+    global _COLLECT
+    _COLLECT = []
+    try:
+        to_z3(pattern)
+        return list(_COLLECT)
+    finally:
+        _COLLECT = None
+
+
+def splits_itself(body):
+    """Formula over a fresh string w: w is a non-empty word of `body` that is also a concatenation of two or more non-empty
+    words of `body`.  If satisfiable, the repetition body* matches w^n in exponentially many ways (a backtracking matcher
+    such as CPython's re then needs exponential time on a near-miss): the classic nested-quantifier blow-up."""
+    w = z3.String('w')
+    ne = z3.Intersect(body, z3.Plus(_any()))
+    return w, z3.And(z3.InRe(w, ne), z3.InRe(w, z3.Concat(ne, z3.Plus(ne))))
